@@ -1,10 +1,11 @@
 (* C20 - the access table of gmsm, written by hand from the code as it is now (no proofs here).
 
-   One row per operation the property names.  Locations are whole objects / fields groups (an
-   abstraction: two fields of one group are never protected differently in the code).  An atomic
-   variable is a location of its own protected by a virtual mutex held exactly around each atomic
-   operation (the A_ names below).  When the code performs an atomic operation inside a critical section, the row
-   lists it next to that section: the table is about which mutexes are held at which access.
+   One row per operation the property names, in the language of Conc/NestModel.v: locks are taken and
+   released where the code takes and releases them (nested sections are nested: Conn.Read sends alerts under
+   c.out while holding c.in; Conn.Write performs its atomic load inside the c.out section), RLock is a Shared
+   acquisition.  Locations are whole objects / field groups (an abstraction: two fields of one group are never
+   protected differently in the code).  An atomic variable is a location of its own protected by a virtual
+   mutex held exactly around each atomic operation (the A_ names below).
    "Run at most once, everybody waits, later callers see the result" constructs are sync.Once objects:
      O_curve     sm2.initonce                          (sm2/p256.go:55,83)
      O_cfg       Config.serverInitOnce                 (gmtls/common.go:540,580; handshake_server.go:55 ...)
@@ -15,7 +16,7 @@
      O_suites    gmtls.once (default cipher suites)    (gmtls/common.go:970)
    Each row names the race-detector scenario of harness/cmd/c20 that exercises it. *)
 From Coq Require Import List Arith Bool.
-From GmsmVerif Require Import Conc.AccessModel.
+From GmsmVerif Require Import Conc.AccessModel Conc.NestModel.
 Import ListNotations.
 
 (* ---- locations ---- *)
@@ -25,7 +26,8 @@ Definition L_sm4_tables := 2.    (* sbox, sbox0..3, ck, fk: never written *)
 Definition L_curve := 3.         (* package variable sm2.sm2P256 (CurveParams, a, b, gx, gy) *)
 Definition L_sm2_tables := 4.    (* sm2P256Precomputed, sm2P256Carry, sm2P256Factor, one, two: never written *)
 Definition L_x509_cea := 5.      (* package variable x509.ContentEncryptionAlgorithm (x509/pkcs7.go:816) *)
-Definition L_x509_tables := 6.   (* OID tables, signatureAlgorithmDetails ...: never written *)
+Definition L_x509_tables := 6.   (* OID tables, signatureAlgorithmDetails, hashes ...: written only by RegisterHash (registration
+                                    at start-up, caller-synchronised) *)
 Definition L_pool := 7.          (* one shared CertPool: bySubjectKeyId, byName, certs *)
 Definition L_cert := 8.          (* shared parsed *Certificate objects *)
 Definition L_cfg_fields := 9.    (* Config: exported fields incl. SessionTicketKey, SessionTicketsDisabled *)
@@ -39,16 +41,19 @@ Definition L_conn_st := 16.      (* Conn.handshakeStatus (atomic) *)
 Definition L_conn_const := 17.   (* Conn.conn, isClient, config: constant *)
 Definition L_sysroots := 18.     (* x509.systemRoots, systemRootsErr *)
 Definition L_suites := 19.       (* gmtls.varDefaultCipherSuites *)
-Definition n_loc := 20.
+Definition L_cfg_key_elems := 20. (* the ticketKey values behind Config.sessionTicketKeys: handshakes read them outside
+                                     Config.mutex ("constant once created": ticketKeys() hands out the slice), nobody writes them *)
+Definition n_loc := 21.
 
 (* ---- mutexes ---- *)
-Definition M_cfg := 0.     (* Config.mutex (RWMutex; readers and writers both modelled as holders) *)
+Definition M_cfg := 0.     (* Config.mutex (sync.RWMutex: RLock = Shared, Lock = Excl) *)
 Definition M_lru := 1.     (* lruSessionCache.Mutex *)
 Definition M_in := 2.      (* Conn.in.Mutex *)
 Definition M_out := 3.     (* Conn.out.Mutex *)
 Definition A_ac := 4.      (* virtual: atomic operations on activeCall *)
 Definition A_st := 5.      (* virtual: atomic operations on handshakeStatus *)
-Definition n_mut := 6.
+Definition M_hs := 6.      (* Conn.handshakeMutex *)
+Definition n_mut := 7.
 
 (* ---- Once objects and what their initialisers write ---- *)
 Definition O_curve := 0.
@@ -79,6 +84,9 @@ Inductive op :=
 | x509_parse_cert | x509_parse_pkcs7 | x509_parse_key | x509_pkcs7_encrypt
 | x509_set_cea                     (* caller-synchronised global: NOT in the claim *)
 | certpool_add                     (* building the pool: caller-synchronised, NOT in the claim *)
+| config_setup                     (* BuildNameToCertificate, GMSupport.EnableMixMode: configuration before use, NOT in the claim *)
+| x509_cert_fill                   (* FromX509Certificate, CreateCertificate (template.AuthorityKeyId): caller's object, NOT in the claim *)
+| x509_register_hash               (* RegisterHash: start-up registration, NOT in the claim *)
 | cert_verify | cert_verify_sysroots
 | config_first_use | config_ticket_keys | config_clone | config_read_fields
 | config_set_ticket_keys           (* SetSessionTicketKeys at any time, also during the first use of the Config *)
@@ -86,67 +94,84 @@ Inductive op :=
 | lru_put | lru_get
 | conn_handshake | conn_read | conn_write | conn_close | conn_state.
 
+Scheme Equality for op.     (* op_beq, op_eq_dec *)
+
+Definition rd (l : nat) : nitem := NAcc (Rd l).
+Definition wr (l : nat) : nitem := NAcc (Wr l).
+Definition locked (md : mode) (m : nat) (body : list nitem) : list nitem := NLock md m :: body ++ [NUnlock md m].
+Definition atomic_rmw (a l : nat) : list nitem := locked Excl a [rd l; wr l].
+Definition atomic_load (a l : nat) : list nitem := locked Excl a [rd l].
+Definition atomic_store (a l : nat) : list nitem := locked Excl a [wr l].
+
 (* c.serverInitOnce.Do(func() { c.serverInit(nil) }) (gmtls/common.go:580,622-659): under the Once the exported
    fields are written; the caller that runs the initialiser also calls ticketKeys() (RLock) and installs the
    initial keys under Config.mutex only if none have been set meanwhile ("c.mutex.Lock(); if len(...) == 0 {...}").
    The two mutex sections are listed for every caller of Do (over-approximation: for the callers that find the
    Once done they stand for a locked read that keeps the keys). *)
-Definition cfg_once : list block :=
-  [OnceDo O_cfg; Sec [M_cfg] [Rd L_cfg_keys]; Sec [M_cfg] [Rd L_cfg_keys; Wr L_cfg_keys]].
+Definition cfg_once : list nitem :=
+  [NOnce O_cfg] ++ locked Shared M_cfg [rd L_cfg_keys] ++ locked Excl M_cfg [rd L_cfg_keys; wr L_cfg_keys].
 
-Definition curve_use : list block := [OnceDo O_curve; Free (Rd L_curve); Free (Rd L_sm2_tables)].
-Definition atomic_rmw (a l : nat) : block := Sec [a] [Rd l; Wr l].
-Definition atomic_load (a l : nat) : block := Sec [a] [Rd l].
+Definition curve_use : list nitem := [NOnce O_curve; rd L_curve; rd L_sm2_tables].
 
-Definition code (o : op) : list block :=
+(* c.Handshake() (gmtls/conn.go): handshakeMutex; handshakeErr / handshakeComplete() are looked at; the first caller
+   runs the handshake (O_conn_hs; inside it c.in and c.out are taken - opaque here), everybody else finds it done *)
+Definition conn_Handshake : list nitem := locked Excl M_hs [NOnce O_conn_hs; rd L_conn_hs].
+
+Definition code (o : op) : list nitem :=
   match o with
   (* package-level functions on separate data: scenario sm2_ops *)
   | sm2_genkey | sm2_sign | sm2_verify | sm2_encrypt | sm2_decrypt => curve_use
   (* sm2.P256Sm2(): scenarios curve_first, curve_first_mixed *)
-  | curve_first_use => [OnceDo O_curve; Free (Rd L_curve)]
+  | curve_first_use => [NOnce O_curve; rd L_curve]
   (* sm3.New + Write/Sum/Reset on the caller's own object, Sm3Sum: no shared location; scenario sm3_hash *)
   | sm3_new_hash => []
-  (* sm4: scenario sm4_shared *)
-  | sm4_new_cipher => [Free (Rd L_sm4_tables)]
-  | sm4_encrypt | sm4_decrypt => [Free (Rd L_sm4_subkeys); Free (Rd L_sm4_tables)]   (* scratch is local since 6638fbe *)
-  | sm4_helper_ecb => [Free (Rd L_sm4_tables)]
-  | sm4_helper_iv => [Free (Rd L_sm4_IV); Free (Rd L_sm4_tables)]                    (* Sm4Cbc, Sm4CFB, Sm4OFB *)
-  | sm4_set_iv => [Free (Wr L_sm4_IV)]
+  (* sm4: scenarios sm4_shared, sm4_first *)
+  | sm4_new_cipher => [rd L_sm4_tables]
+  | sm4_encrypt | sm4_decrypt => [rd L_sm4_subkeys; rd L_sm4_tables]                 (* scratch is local since 6638fbe *)
+  | sm4_helper_ecb => [rd L_sm4_tables]
+  | sm4_helper_iv => [rd L_sm4_IV; rd L_sm4_tables]                                  (* Sm4Cbc, Sm4CFB, Sm4OFB *)
+  | sm4_set_iv => [wr L_sm4_IV]
   (* x509: scenario x509_parse (ber.go has no package counter since c7c93cc) *)
-  | x509_parse_cert | x509_parse_pkcs7 | x509_parse_key => curve_use ++ [Free (Rd L_x509_tables)]
-  | x509_pkcs7_encrypt => curve_use ++ [Free (Rd L_x509_cea); Free (Rd L_x509_tables)]
-  | x509_set_cea => [Free (Wr L_x509_cea)]
-  | certpool_add => [Free (Rd L_pool); Free (Wr L_pool)]
+  | x509_parse_cert | x509_parse_pkcs7 | x509_parse_key => curve_use ++ [rd L_x509_tables]
+  | x509_pkcs7_encrypt => curve_use ++ [rd L_x509_cea; rd L_x509_tables]
+  | x509_set_cea => [wr L_x509_cea]
+  | certpool_add => curve_use ++ [rd L_pool; wr L_pool]
+  | config_setup => curve_use ++ [wr L_cfg_fields]
+  | x509_cert_fill => curve_use ++ [wr L_cert]
+  | x509_register_hash => [wr L_x509_tables]
   (* Certificate.Verify with one shared pool and shared certificates: scenario certpool_verify *)
-  | cert_verify => curve_use ++ [Free (Rd L_pool); Free (Rd L_cert); Free (Rd L_x509_tables)]
-  | cert_verify_sysroots => [OnceDo O_sysroots; Free (Rd L_sysroots)]
+  | cert_verify => curve_use ++ [rd L_pool; rd L_cert; rd L_x509_tables]
+  | cert_verify_sysroots => [NOnce O_sysroots; rd L_sysroots]
   (* Config: scenarios hs_gm, hs_tls, hs_auto, cfg_first_rotate (rotation during the first use) *)
   | config_first_use => cfg_once
-  | config_ticket_keys => cfg_once ++ [Sec [M_cfg] [Rd L_cfg_keys]]
-  | config_clone => cfg_once ++ [Sec [M_cfg] [Rd L_cfg_keys]; Free (Rd L_cfg_fields)]
-  | config_read_fields => cfg_once ++ [Free (Rd L_cfg_fields)]
-  | config_set_ticket_keys => [Sec [M_cfg] [Wr L_cfg_keys]]
-  | default_cipher_suites => [OnceDo O_suites; Free (Rd L_suites)]
+  | config_ticket_keys => cfg_once ++ locked Shared M_cfg [rd L_cfg_keys] ++ [rd L_cfg_key_elems]   (* ticketKeys(); encryptTicket/decryptTicket *)
+  | config_clone => cfg_once ++ locked Shared M_cfg [rd L_cfg_keys] ++ [rd L_cfg_fields]
+  | config_read_fields => cfg_once ++ [rd L_cfg_fields]
+  | config_set_ticket_keys => locked Excl M_cfg [wr L_cfg_keys]
+  | default_cipher_suites => [NOnce O_suites; rd L_suites]
   (* LRU client session cache: scenarios lru_cache, hs_* *)
-  | lru_put | lru_get => [Sec [M_lru] [Rd L_lru; Wr L_lru]]
+  | lru_put | lru_get => locked Excl M_lru [rd L_lru; wr L_lru]
   (* one Conn: scenarios conn_rwc_gm, conn_rwc_tls *)
-  | conn_handshake => [OnceDo O_conn_hs; Sec [A_st] [Wr L_conn_st]; Free (Rd L_conn_const)]
+  | conn_handshake =>
+      locked Excl M_hs ([NOnce O_conn_hs; rd L_conn_hs] ++ atomic_store A_st L_conn_st) ++ [rd L_conn_const]
   | conn_read =>
-      [OnceDo O_conn_hs; Free (Rd L_conn_const);
-       Sec [M_in] [Rd L_conn_hs; Rd L_conn_in; Wr L_conn_in];
-       Sec [M_out] [Rd L_conn_hs; Rd L_conn_out; Wr L_conn_out]]      (* alerts sent from the read path *)
+      conn_Handshake ++ [rd L_conn_const]
+      ++ locked Excl M_in ([rd L_conn_hs; rd L_conn_in; wr L_conn_in]
+                           ++ locked Excl M_out [rd L_conn_hs; rd L_conn_out; wr L_conn_out]      (* alerts sent from the read path *)
+                           ++ [rd L_conn_in; wr L_conn_in])
   | conn_write =>
-      [atomic_rmw A_ac L_conn_ac;                                       (* CAS x -> x+2 *)
-       OnceDo O_conn_hs; atomic_load A_st L_conn_st; Free (Rd L_conn_const);
-       Sec [M_out] [Rd L_conn_hs; Rd L_conn_out; Wr L_conn_out];
-       atomic_rmw A_ac L_conn_ac]                                       (* add -2 *)
+      atomic_rmw A_ac L_conn_ac                                         (* CAS x -> x+2 *)
+      ++ conn_Handshake ++ [rd L_conn_const]
+      ++ locked Excl M_out (atomic_load A_st L_conn_st ++ [rd L_conn_hs; rd L_conn_out; wr L_conn_out])
+      ++ atomic_rmw A_ac L_conn_ac                                      (* add -2 *)
   | conn_close =>
-      [atomic_rmw A_ac L_conn_ac;                                       (* CAS x -> x|1 *)
-       atomic_load A_st L_conn_st;
-       OnceDo O_conn_hs;          (* closeNotify runs only if the load returned 1 = the handshake has completed *)
-       Sec [M_out] [Rd L_conn_hs; Rd L_conn_out; Wr L_conn_out];
-       Free (Rd L_conn_const)]
-  | conn_state => [OnceDo O_conn_hs; atomic_load A_st L_conn_st]        (* ConnectionState etc. after the handshake *)
+      atomic_rmw A_ac L_conn_ac                                         (* CAS x -> x|1 *)
+      ++ atomic_load A_st L_conn_st
+      ++ [NOnce O_conn_hs]        (* closeNotify runs only if the load returned 1 = the handshake has completed *)
+      ++ locked Excl M_out [rd L_conn_hs; rd L_conn_out; wr L_conn_out]
+      ++ [rd L_conn_const]
+  | conn_state =>                 (* ConnectionState, OCSPResponse, VerifyHostname: under handshakeMutex, fields read once complete *)
+      locked Excl M_hs (atomic_load A_st L_conn_st ++ [NOnce O_conn_hs; rd L_conn_hs])
   end.
 
 (* the operations the property claims to be safe against each other (and against themselves) *)
@@ -160,11 +185,21 @@ Definition claimed_ops : list op :=
    conn_handshake; conn_read; conn_write; conn_close; conn_state].
 
 (* every operation of the table except the caller-synchronised writers *)
-Definition unclaimed_ops : list op := [sm4_set_iv; x509_set_cea; certpool_add].
+Definition unclaimed_ops : list op := [sm4_set_iv; x509_set_cea; certpool_add; config_setup; x509_cert_fill; x509_register_hash].
+
+(* net effect of a piece of code on the list of held locks *)
+Fixpoint final_hl (hl : list lk) (c : list nitem) : list lk :=
+  match c with
+  | [] => hl
+  | NLock md m :: r => final_hl ((md, m) :: hl) r
+  | NUnlock md m :: r => final_hl (drop_lk (md, m) hl) r
+  | _ :: r => final_hl hl r
+  end.
 
 Definition ops_ok (ops : list op) : bool :=
-  forallb (fun a => forallb (fun b => pair_ok (flat (code a)) (flat (code b))) ops) ops
-  && forallb (fun o => forallb (fun a => guarded (map fst (gm_obody o)) o (code a)) ops) (seq 0 n_once).
+  forallb (fun a => forallb (fun b => pair_ok2 (annot [] (code a)) (annot [] (code b))) ops) ops
+  && forallb (fun o => forallb (fun a => guarded2 (map fst (gm_obody o)) o (code a)) ops) (seq 0 n_once)
+  && forallb (fun a => match final_hl [] (code a) with [] => true | _ => false end) ops.   (* every row releases what it takes *)
 
 (* a program: every goroutine performs any sequence of the given operations on the shared objects *)
-Definition program_of (threads : list (list op)) : list (list block) := map (flat_map code) threads.
+Definition program_of (threads : list (list op)) : list (list nitem) := map (flat_map code) threads.
